@@ -190,13 +190,27 @@ def run(ctx):
                    {"site": "handshake", "cls": "key-not-fresh"})
         seen.add(k)
     # the same option objects reused for successive connections (reconnect loops do this): still a fresh key each time
-    for hdr in ({"X-App": "1"}, ["X-App: 1"], None):
+    import copy
+    combos = [(h, c, sp) for h in ({"X-App": "1"}, ["X-App: 1"], None) for c in (None, "sid=42") for sp in (None,)]
+    for hdr0, cookie, subs in combos:
+        hdr = copy.deepcopy(hdr0)
         seen2 = set()
+        reqs = []
         for _ in range(3):
             s = HandshakeSock([])
             ws = websocket.WebSocket()
             kw = {"header": hdr} if hdr is not None else {}
+            if cookie:
+                kw["cookie"] = cookie
+            if subs:
+                kw["subprotocols"] = subs
             ws.connect("ws://sim.test/", socket=s, **kw)
+            reqs.append(b"\r\n".join(l for l in bytes(s.request).split(b"\r\n") if not l.lower().startswith(b"sec-websocket-key")))
+            if len(reqs) > 1 and reqs[-1] != reqs[0]:
+                T.fail("spec", {"header_option": str(hdr0), "cookie": cookie, "subprotocols": subs, "connection": len(reqs)},
+                       reqs[0].decode("latin-1")[:400], reqs[-1].decode("latin-1")[:400], {"site": "handshake", "cls": "request-drifts-on-reuse"},
+                       what="a later connection made with the same option objects sends a different request (apart from the key)")
+                break
             k = [l.split(b":", 1)[1].strip() for l in bytes(s.request).split(b"\r\n") if l.lower().startswith(b"sec-websocket-key")]
             T.case(("fresh-reuse", str(type(hdr)), len(seen2)), bucket="key-freshness")
             if len(k) != 1 or k[0] in seen2:
@@ -205,8 +219,9 @@ def run(ctx):
                        what="reusing the same header option object for several connections repeats the Sec-WebSocket-Key")
                 break
             seen2.add(k[0])
-        if hdr is not None and hdr not in ({"X-App": "1"}, ["X-App: 1"]):
-            T.fail("spec", {"header_option": str(hdr)}, "caller's header object left unmodified", str(hdr), {"site": "handshake", "cls": "options-mutated"})
+        if hdr != hdr0 or (subs is not None and subs != ["chat", "v2"]):
+            T.fail("spec", {"header_option": str(hdr0), "cookie": cookie}, "caller's option objects left unmodified", str(hdr) + " " + str(subs), {"site": "handshake", "cls": "options-mutated"},
+                   what="the library modified an option object that belongs to the caller")
     T.validated = len(cases)
     T.dist["third_opinion"] = third
     return T.result(
